@@ -129,3 +129,34 @@ pub fn check_plain(bytes: &Rc<Vec<u8>>, movie: &Movie, expect: &[Vec<Expect>], o
     let ids: Vec<u32> = movie.tracks.iter().map(|t| t.id).collect();
     check_samples(&mut mp4, &ids, expect, opts)
 }
+
+/// One call result rendered for comparison (errors by variant + message; samples by all
+/// fields plus a hash of the bytes).
+pub fn render_sample_result(r: &mp4::Result<Option<mp4::Mp4Sample>>) -> String {
+    match r {
+        Ok(Some(s)) => format!("some(start={} dur={} cts={} sync={} len={} h={:016x})", s.start_time, s.duration, s.rendering_offset, s.is_sync, s.bytes.len(), crate::prng::hash64(&s.bytes)),
+        Ok(None) => "none".to_string(),
+        Err(e) => format!("err({:?}:{})", std::mem::discriminant(e), e),
+    }
+}
+
+pub fn is_io_error<T>(r: &mp4::Result<T>) -> bool {
+    matches!(r, Err(mp4::Error::IoError(_)))
+}
+
+/// Everything observable about an opened reader: accessor transcript plus every sample call
+/// for ids 0..=count+1 of every track.
+pub fn full_transcript<R: std::io::Read + std::io::Seek>(mp4: &mut Mp4Reader<R>) -> String {
+    let mut s = crate::props::c12::transcript(mp4);
+    let mut ids: Vec<u32> = mp4.tracks().keys().cloned().collect();
+    ids.sort();
+    for id in ids {
+        let n = mp4.sample_count(id).unwrap_or(0).min(5000);
+        for k in 0..=n + 1 {
+            let off = mp4.sample_offset(id, k).map_err(|e| e.to_string());
+            let r = mp4.read_sample(id, k);
+            s.push_str(&format!("t{} s{} off={:?} {}\n", id, k, off, render_sample_result(&r)));
+        }
+    }
+    s
+}
